@@ -16,7 +16,7 @@ CHECK = {
     ],
     "min_nontrivial": (8000, 100000),
     "timeout": (900, 7200),
-    "rule": ("(a) early stopping: gboost::early_stopping_t driven like its caller does (rounds 0,1,2,... with wlearners.size() == round, never "
+    "rule": ("[a quarter of the model cases fit the SAME model object twice and check the second result] (a) early stopping: gboost::early_stopping_t driven like its caller does (rounds 0,1,2,... with wlearners.size() == round, never "
              "after a stop) against a reference monitor written from the statement (list of accepted rounds, best value, snapshot); after every "
              "done() call the answer, round(), values() (bitwise) and value() must agree. Exhaustive: alphabet (train below eps | above eps) x "
              "validation values {1, 1.125, 1.25, 1.5, 2} with eps = 0.25 (differences <, ==, > eps), dyadic per-sample values so all arithmetic "
